@@ -404,8 +404,7 @@ def r7_lock_order(report, repo):
               len(lm.unresolved))
 
 
-def r8_single_body(report, repo):
-  rule = 'C04-R8'
+def r8_single_body(report, repo, rule='C04-R8'):
   report.rule(rule, 'T-MUST: running_phase_context asserts that no phase is '
               'already running before creating a phase state; execute()\'s '
               'KeyboardInterrupt handler waits again and re-raises inside the '
@@ -454,3 +453,8 @@ def run(report, repo):
   report.guard(r8_single_body, report, repo)
   # teardown still runs after a single abort: stop/reset/release hand-shake
   report.guard(c03.r4_stop_phase_executor, report, repo, rule='C04-R9')
+  # the running body is asked to terminate / a not-yet-started one never runs:
+  # the kill protocol of the phase thread (shared with C12-R1/R2)
+  from sa.rules import c12  # pylint: disable=g-import-not-at-top
+  report.guard(c12.r1_run, report, repo, rule='C04-R10')
+  report.guard(c12.r2_kill, report, repo, rule='C04-R10')
